@@ -424,12 +424,15 @@ fn run_row(case: &Value, w: &World) -> Vec<(String, Value, Value)> {
       got.sort();
       let all_errors = (phase == "U" || phase == "C") && matches!(run.fail_fast, FailFast::AllErrors);
       let ok = if all_errors {
-        got == allowed // every failing condition, nothing else
+        allowed.iter().all(|a| got.contains(a)) // every failing condition is reported
       } else {
         got.len() == 1 && allowed.contains(&got[0])
       };
       if !ok {
         diffs.push(("error_does_not_identify_condition/validate".into(), json!({"allowed": allowed, "all_errors": all_errors}), json!(got)));
+      } else if all_errors && got != allowed {
+        // further errors: the implementation holds more conditions to be false than the reference does
+        diffs.push(("~additional_errors/validate".into(), json!(allowed), json!(got)));
       }
     }
   }
